@@ -23,8 +23,8 @@ def policy_matrix(tier):
     from rl4co.models.zoo import AttentionModelPolicy
     kw = dict(embed_dim=32, num_encoder_layers=2, num_heads=2)
     out = [("AM", e, (lambda e=e: AttentionModelPolicy(env_name=e, **kw))) for e in
-           (("tsp", "cvrp", "op", "pdp") if tier == "quick" else
-            ("tsp", "cvrp", "op", "pdp", "pctsp", "spctsp", "sdvrp", "cvrptw", "atsp", "mtsp", "svrp"))]
+           (("tsp", "cvrp", "op", "pdp", "pctsp", "sdvrp", "cvrptw", "mtsp", "svrp") if tier == "quick" else
+            ("tsp", "cvrp", "op", "pdp", "pctsp", "spctsp", "sdvrp", "cvrptw", "atsp", "mtsp", "svrp", "mtvrp"))]
     try:
         from rl4co.models.zoo import HeterogeneousAttentionModelPolicy
         out.append(("HAM", "pdp", lambda: HeterogeneousAttentionModelPolicy(env_name="pdp", **kw)))
@@ -87,7 +87,7 @@ def run(tier, seed):
     rnd = random.Random(seed)
     torch.manual_seed(seed)
     recs, skipped = [], []
-    n_inst = 6 if tier == "quick" else 12
+    n_inst = 4 if tier == "quick" else 12
     for (pname, ename, mk) in policy_matrix(tier):
         try:
             env = get_env(ename, generator_params={"num_loc": 10 if tier == "quick" else rnd.choice([10, 20])})
@@ -109,7 +109,7 @@ def run(tier, seed):
         comps = [[i, i, i] for i in range(n_inst)]
         comps += [[i, (i + 1) % n_inst] for i in range(n_inst)] + [[(i + 1) % n_inst, i] for i in range(n_inst)]
         for size in ((n_inst, 8) if tier == "quick" else (3, n_inst, 8, 32)):
-            for _ in range(2):
+            for _ in range(1 if tier == "quick" else 2):
                 comps.append([rnd.randrange(n_inst) for _ in range(size)])
         perm = list(range(n_inst))
         rnd.shuffle(perm)
